@@ -38,9 +38,13 @@ Mk(shape, seed) ==
   IN [rank |-> rank, data |-> UnflatR(rank, [i \in 1..n |-> Val(seed, i)], shape)]
 
 MkNested(shapes, seed) == [rank |-> 0, parts |-> [k \in 1..Len(shapes) |-> Mk(shapes[k], seed + k)]]
+\* lists with optional entries (rank -1; the bias gradients of a feedback block): an absent entry is NoTensor
+NoTensor == [rank |-> -2]
+MkOptional(pattern, seed) ==
+  [rank |-> -1, parts |-> [k \in 1..Len(pattern) |-> IF pattern[k] THEN Mk(<<2>>, seed + k) ELSE NoTensor]]
 
 \* The shape the implementation records: dimensions for ranks 1..4, Nested(len) for nested lists.
-ShapeOf(t) == IF t.rank = 0 THEN <<"nested", Len(t.parts)>> ELSE DimsR(t.rank, t.data)
+ShapeOf(t) == IF t.rank \in {0, -1} THEN <<"nested", Len(t.parts)>> ELSE DimsR(t.rank, t.data)
 
 \* ---- element functions ---------------------------------------------------
 ElemOps == {"add", "sub", "mul"}
@@ -48,7 +52,11 @@ Elem(op, a, b) == CASE op = "add" -> a + b [] op = "sub" -> a - b [] op = "mul" 
 
 RECURSIVE Apply2(_, _, _)
 Apply2(op, x, y) ==
-  IF x.rank = 0
+  IF x.rank = -1
+    \* position by position: an entry is changed iff it is present on both sides
+    THEN [rank |-> -1, parts |-> [k \in 1..Len(x.parts) |->
+            IF x.parts[k] # NoTensor /\ y.parts[k] # NoTensor THEN Apply2(op, x.parts[k], y.parts[k]) ELSE x.parts[k]]]
+  ELSE IF x.rank = 0
     THEN [rank |-> 0, parts |-> [k \in 1..Len(x.parts) |-> Apply2(op, x.parts[k], y.parts[k])]]
     ELSE [rank |-> x.rank, data |-> MapR(LAMBDA a, b : Elem(op, a, b), x.rank, x.data, y.data)]
 
@@ -59,6 +67,7 @@ Supported(op, t) ==
 
 \* An operation with another operand is defined iff supported and the recorded shapes are equal.
 Defined(op, x, y) == Supported(op, x) /\ ShapeOf(x) = ShapeOf(y)
+OptPatterns == {<<TRUE, TRUE, TRUE>>, <<TRUE, FALSE, TRUE>>, <<FALSE, TRUE, TRUE>>, <<TRUE, FALSE, FALSE>>}
 
 RECURSIVE DivBy(_, _)
 DivBy(x, s) ==
@@ -82,11 +91,15 @@ StartTensors ==
   {Mk(s, seed) : s \in UNION {ShapesOf(r) : r \in 1..4}, seed \in Seeds}
   \cup {Mk(s, 7) : s \in LargeShapes}
   \cup {MkNested(<<<<2>>, <<1, 2>>>>, seed) : seed \in Seeds}
+  \cup {MkOptional(pat, 3) : pat \in OptPatterns}
 
 \* Operands offered to a binary operation on x: the matching shape, and mismatching ones
 \* (same rank other dimensions; another rank with the same element count; nested of another length).
 Operands(x) ==
-  IF x.rank = 0
+  IF x.rank = -1
+    \* every presence pattern of the same length (incl. ones that differ from x's), and a shorter list
+    THEN {MkOptional(pat, 5) : pat \in OptPatterns} \cup {MkOptional(<<TRUE, TRUE>>, 5)}
+  ELSE IF x.rank = 0
     THEN {MkNested(<<<<2>>, <<1, 2>>>>, 5), MkNested(<<<<2>>>>, 5)}
     ELSE LET s == DimsR(x.rank, x.data) IN
          {Mk(s, 4), Mk(s, 9), Mk([s EXCEPT ![1] = (s[1] % MaxDim) + 1], 4)}
@@ -104,7 +117,7 @@ Step(op, arg, res, outcome, extra) ==
 \*  quantifier and are not generated for them)
 Binary(op, y) ==
   /\ ~final /\ Len(hist) < Depth /\ UNCHANGED <<start, final>>
-  /\ acc.rank = 0 => op = "add"
+  /\ acc.rank <= 0 => op = "add"
   /\ IF Defined(op, acc, y)
        THEN /\ acc' = Apply2(op, acc, y)
             /\ Step(op, y, acc', "ok", 0)
@@ -114,7 +127,7 @@ Binary(op, y) ==
 \* hadamard(other, scalar): a * b * scalar.
 Hadamard(y, k) ==
   /\ ~final /\ Len(hist) < Depth /\ UNCHANGED <<start, final>>
-  /\ acc.rank # 0
+  /\ acc.rank > 0
   /\ IF Defined("hadamard", acc, y)
        THEN /\ acc' = [rank |-> acc.rank, data |-> MapR(LAMBDA a, b : a * b * k, acc.rank, acc.data, y.data)]
             /\ Step("hadamard", y, acc', "ok", k)
@@ -126,18 +139,19 @@ Hadamard(y, k) ==
 TinyScalars == {[n |-> 1, d |-> 1073741824], [n |-> -1, d |-> 33554432]}
 DivScalar(s) ==
   /\ ~final /\ UNCHANGED <<start, acc>> /\ final' = TRUE
+  /\ acc.rank >= 0
   /\ Step("div", acc, DivBy(acc, s), "ok", s)
 
 \* mean_inplace(<<y1..yk>>): terminal; refused when a shape differs or the rank is unsupported.
 Mean(ys) ==
   /\ ~final /\ UNCHANGED <<start, acc>> /\ final' = TRUE
-  /\ acc.rank # 0
+  /\ acc.rank > 0
   /\ IF \A j \in 1..Len(ys) : Defined("mean", acc, ys[j])
        THEN Step("mean", ys, MeanOf(acc, ys), "ok", Len(ys))
        ELSE Step("mean", ys, acc, "panic", Len(ys))
 
 MeanOperands(x) ==
-  IF x.rank = 0 THEN {<<MkNested(<<<<2>>, <<1, 2>>>>, 5)>>}
+  IF x.rank <= 0 THEN {<<MkNested(<<<<2>>, <<1, 2>>>>, 5)>>}
   ELSE LET s == DimsR(x.rank, x.data) IN
        {<<Mk(s, 4)>>, <<Mk(s, 4), Mk(s, 6)>>, <<Mk(s, 4), Mk(s, 6), Mk(s, 9)>>,
         <<Mk(s, 4), Mk([s EXCEPT ![1] = (s[1] % MaxDim) + 1], 6)>>}
@@ -145,7 +159,7 @@ MeanOperands(x) ==
 \* clamp(lo, hi): every element limited to the interval (ranks 1..4; terminal only to bound the search).
 ClampOp(lo, hi) ==
   /\ ~final /\ UNCHANGED <<start, acc>> /\ final' = TRUE
-  /\ acc.rank # 0
+  /\ acc.rank > 0
   /\ IF acc.rank \in 1..4
        THEN Step("clamp", acc, [rank |-> acc.rank, data |-> UnR(LAMBDA a : Clamp(a, lo, hi), acc.rank, acc.data)], "ok", <<lo, hi>>)
        ELSE Step("clamp", acc, acc, "panic", <<lo, hi>>)
@@ -167,13 +181,17 @@ OuterOp(seed, n) ==
   /\ LET v == Mk(<<n>>, seed) IN
      Step("product", v, [rank |-> 2, data |-> Outer(acc.data, v.data)], "ok", 0)
 
+\* lists with optional entries support no terminal operation: their behaviours simply end
+StopOptional == ~final /\ acc.rank = -1 /\ hist # <<>> /\ final' = TRUE /\ UNCHANGED <<start, acc, hist>>
+
 Next ==
+  \/ StopOptional
   \/ \E lo \in {-2, 0}, hi \in {0, 1} : ClampOp(lo, hi)
   \/ TransposeOp
   \/ \E seed \in {4, 6} : DotOp(seed)
   \/ \E seed \in {4}, n \in 1..3 : OuterOp(seed, n)
   \/ \E op \in ElemOps, y \in Operands(acc) : Binary(op, y)
-  \/ \E y \in Operands(acc), k \in {1, 2, -1} : Hadamard(y, k)
+  \/ \E y \in Operands(acc), k \in {1, 2, -1, 3, -7} : Hadamard(y, k)   \* 3 and -7: (a*b)*k and a*(b*k) round differently
   \/ \E s \in {1, 2, 3, -4} : DivScalar(s)
   \/ \E s \in TinyScalars : DivScalar(s)
   \/ \E ys \in MeanOperands(acc) : Mean(ys)
@@ -192,7 +210,9 @@ RefusedIffMismatch ==
 \* Exactness domain: every integer stays far below 2^24.
 RECURSIVE MaxAbs(_)
 MaxAbs(t) ==
-  IF t.rank = 0 THEN Max2(MaxAbs(t.parts[1]), IF Len(t.parts) > 1 THEN MaxAbs(t.parts[2]) ELSE 0)
+  IF t.rank = -2 THEN 0
+  ELSE IF t.rank = -1 THEN Max2(MaxAbs(t.parts[1]), Max2(MaxAbs(t.parts[2]), IF Len(t.parts) > 2 THEN MaxAbs(t.parts[3]) ELSE 0))
+  ELSE IF t.rank = 0 THEN Max2(MaxAbs(t.parts[1]), IF Len(t.parts) > 1 THEN MaxAbs(t.parts[2]) ELSE 0)
   ELSE LET f == FlatR(t.rank, t.data) IN
        CHOOSE m \in {Abs(f[i]) : i \in 1..Len(f)} : \A i \in 1..Len(f) : Abs(f[i]) <= m
 ExactRange == MaxAbs(acc) < 1000000
